@@ -121,6 +121,9 @@ def gen_workspace(rng, depth=None, force=None):
         if rng.random() < 0.5:
             rand_fixture(rng, tp, "baz")
         ws.add("vv/lib/site-packages/tp%d/plugin.py" % i, tp)
+        # installed plugins found through pytest11 entry points are marked plugin files as well
+        if rng.random() < 0.7:
+            ws.plugin.append("vv/lib/site-packages/tp%d/plugin.py" % i)
     ws.meta["thirdparty"] = ntp
 
     # the using test module, at a random level
@@ -176,6 +179,16 @@ def gen_workspace(rng, depth=None, force=None):
     upath = join(dirs[ulevel], "test_use.py")
     ws.add(upath, uf)
     ws.users.insert(0, upath)
+    # a second test module in the same directory that relies on the conftest chain
+    if rng.random() < 0.4:
+        of = PyFile()
+        of.test("test_other", params=(name,) if rng.random() < 0.7 else (name, "baz"))
+        if rng.random() < 0.3:
+            of.test("test_other_uf", params=(), usefixtures=[name])
+        opath = join(dirs[ulevel], "test_other.py")
+        ws.add(opath, of)
+        ws.users.append(opath)
+        ws.meta["second_module"] = True
     ws.meta.update({"ulevel": ulevel, "nsame": nsame, "kinds": kinds})
 
     order = list(ws.files.keys())
